@@ -159,6 +159,18 @@ def handle (toks : List String) : String :=
     match parseNat k1, parseNat k2, (vals.splitOn ",").mapM parseInt, parseHex h with
     | some k1, some k2, some vals, some bs => hsweepLine (fix == "1") k1 k2 vals bs
     | _, _, _, _ => "bad-op"
+  | ["opencb", k, h] =>
+    -- the k-th callback call of Reader::new fails
+    match parseNat k, parseHex h with
+    | some k, some bs =>
+      match Reader.newCb bs (fun i => i == k) with
+      | .panic _ => "panic-new"
+      | .err e => s!"err {e.name}"
+      | .ok r =>
+        match describe r with
+        | .ok s => s
+        | .error () => "panic-acc"
+    | _, _ => "bad-op"
   | ["sweep", h] =>
     match parseHex h with
     | some bs => sweepLine bs
